@@ -105,6 +105,8 @@ func TestVerifE5Replay(t *testing.T) {
 		vfE5ReplayF7(t, name)
 	case "delete_races_getchannel":
 		vfE5ReplayDeleteGetChannel(t, name)
+	case "fin_races_empty_count", "req_races_empty_count":
+		vfE5ReplayAnswerEmpty(t, name)
 	case "empty_races_delivery":
 		vfE5ReplayEmptyDelivery(t, name)
 	case "exit_races_timeout_scan":
@@ -740,5 +742,92 @@ recv:
 	bad := depth != 0 || delivered != 0 || (mid != nil && mid != old) || subErr == "none"
 	fmt.Printf("E5REPLAY %s backlog=%d get=%s mid_delete_get_returned_exiting_channel=%v mid_delete_sub_err=%s delete=%s channel_listed_after_delete=%v depth=%d delivered_old_messages=%d nonempty_files=%s resurrected=%v\n",
 		name, backlog, get, mid == old, subErr, delRes, existed, depth, delivered, strings.Join(left, ","), bad)
+	n.Exit()
+}
+
+// FIN / REQ racing Empty, counter side (F8): a real TCP consumer holds two messages; its FIN (REQ) of the
+// first has completed on the channel and is parked before the client's counter is decremented
+// (proto.fin.beforeClientCount / proto.req.beforeClientCount); Channel.Empty(); release.  The consumer's
+// in_flight_count must end at 0 (never negative) and a third message must still be delivered.
+func vfE5ReplayAnswerEmpty(t *testing.T, name string) {
+	opts := vfE5Opts(t.TempDir())
+	opts.MemQueueSize = 10
+	opts.ClientTimeout = 60 * time.Second
+	n, err := New(opts)
+	if err != nil {
+		t.Fatal(err)
+	}
+	n.LoadMetadata()
+	go n.Main()
+	topic := n.GetTopic("ae")
+	ch := topic.GetChannel("c")
+	m1 := NewMessage(topic.GenerateID(), []byte("one"))
+	m2 := NewMessage(topic.GenerateID(), []byte("two"))
+	topic.PutMessage(m1)
+	topic.PutMessage(m2)
+	conn, err := net.DialTimeout("tcp", n.RealTCPAddr().String(), 2*time.Second)
+	if err != nil {
+		t.Fatal(err)
+	}
+	defer conn.Close()
+	conn.Write([]byte("  V2"))
+	conn.Write([]byte("SUB ae c\n"))
+	conn.Write([]byte("RDY 2\n"))
+	readUntil := func(ids ...string) bool {
+		buf := make([]byte, 4096)
+		var acc []byte
+		conn.SetReadDeadline(time.Now().Add(3 * time.Second))
+		for {
+			all := true
+			for _, id := range ids {
+				if !strings.Contains(string(acc), id) {
+					all = false
+				}
+			}
+			if all {
+				return true
+			}
+			k, err := conn.Read(buf)
+			if err != nil {
+				return false
+			}
+			acc = append(acc, buf[:k]...)
+		}
+	}
+	got := readUntil(string(m1.ID[:]), string(m2.ID[:]))
+	point, cmd := "proto.fin.beforeClientCount", "FIN "+string(m1.ID[:])+"\n"
+	if name == "req_races_empty_count" {
+		point, cmd = "proto.req.beforeClientCount", "REQ "+string(m1.ID[:])+" 0\n"
+	}
+	g := vfE5NewGate(point)
+	conn.Write([]byte(cmd))
+	g.wait(t)
+	ch.Empty()
+	close(g.release)
+	time.Sleep(100 * time.Millisecond)
+	var cl *clientV2
+	ch.RLock()
+	for _, c := range ch.clients {
+		cl = c.(*clientV2)
+	}
+	ch.RUnlock()
+	cnt := int64(-99)
+	if cl != nil {
+		cnt = atomic.LoadInt64(&cl.InFlightCount)
+	}
+	ch.inFlightMutex.Lock()
+	inMap := len(ch.inFlightMessages)
+	ch.inFlightMutex.Unlock()
+	// REQ 0 put m1 back on the queue after the Empty: it is redelivered, then one message is in flight
+	m3 := NewMessage(topic.GenerateID(), []byte("three"))
+	topic.PutMessage(m3)
+	third := readUntil(string(m3.ID[:]))
+	time.Sleep(50 * time.Millisecond)
+	ch.inFlightMutex.Lock()
+	inMap2 := len(ch.inFlightMessages)
+	ch.inFlightMutex.Unlock()
+	cnt2 := atomic.LoadInt64(&cl.InFlightCount)
+	fmt.Printf("E5REPLAY %s both_delivered=%v count_after=%d in_flight_map_after=%d third_delivered=%v count_end=%d in_flight_map_end=%d wrong=%v\n",
+		name, got, cnt, inMap, third, cnt2, inMap2, cnt != int64(inMap) || cnt2 != int64(inMap2) || cnt < 0 || !third)
 	n.Exit()
 }
